@@ -150,16 +150,29 @@ COMPOUND_CTOR = {"serde::ser::SerializeSeq": "serialize_seq", "serde::ser::Seria
 
 def _collector_self(crate, f, inl):
     """One collector type serving several compound kinds (`Collector { shape, items, .. }` implementing SerializeSeq ..
-    SerializeStructVariant) is told apart by a field of a private enum type that the `serialize_*` constructor sets.
-    A method of such a type is evaluated on a `self` whose enum-typed fields hold what serde's matching constructor
-    (`serialize_map` for `SerializeMap`, ..) puts there; everything else about `self` stays symbolic."""
+    SerializeStructVariant) is told apart by a field of a private enum type - or an `Option` - that the `serialize_*`
+    constructor sets, possibly inside a struct-typed field (`CollectMap { inner: Collect { shape, .. }, .. }`).
+    A method of such a type is evaluated on a `self` whose enum-typed fields hold the variant that serde's matching
+    constructor (`serialize_map` for `SerializeMap`, ..) puts there; everything else about `self` stays symbolic."""
     ctor_name = COMPOUND_CTOR.get(f.impl_trait or "")
     a = crate.adts.get(f.self_ty or "")
     if ctor_name is None or not a or a.get("kind") != "struct" or f.arg_count < 1 or not f.path.endswith("::end"):
         return {}, {}
-    fields = a["variants"][0]["fields"]
-    enum_i = [i for i, fl in enumerate(fields) if fl["ty"] in crate.adts and crate.adts[fl["ty"]].get("kind") == "enum"]
-    if not enum_i:
+
+    def enum_like(ty):
+        return ty.startswith("std::option::Option<") or (ty in crate.adts and crate.adts[ty].get("kind") == "enum")
+
+    def struct_like(ty):
+        return ty in crate.adts and crate.adts[ty].get("kind") == "struct"
+
+    def has_enum(ty, depth=0):
+        if enum_like(ty):
+            return True
+        if struct_like(ty) and depth < 3:
+            return any(has_enum(fl["ty"], depth + 1) for fl in crate.adts[ty]["variants"][0]["fields"])
+        return False
+
+    if not has_enum(f.self_ty):
         return {}, {}
     ctor = crate.fn(SER + ctor_name)
     if ctor is None:
@@ -169,34 +182,50 @@ def _collector_self(crate, f, inl):
         made = [p.ret for p in S.run(ctor) if p.end == "return" and isinstance(p.ret, Adt) and p.ret.variant == 0]
     except sim.Limit:
         return {}, {}
-    vals = {}
+    objs = []
     for r in made:
         obj = r.fields[0] if r.fields else None
-        if not (isinstance(obj, Adt) and obj.adt == f.self_ty and len(obj.fields) == len(fields)):
+        if not (isinstance(obj, Adt) and obj.adt == f.self_ty):
             return {}, {}
-        for i in enum_i:
-            v = obj.fields[i]
-            if not isinstance(v, Adt):
-                return {}, {}
-            if i in vals and (vals[i].variant != v.variant):
-                return {}, {}
-            vals[i] = v
-    if not vals:
+        objs.append(obj)
+    if not objs:
         return {}, {}
-    # what the constructor stored inside the variant (a variant name handed to it) is a field of `self` for the method
     cmap = {}
-    k = 0
-    for i, v in list(vals.items()):
-        ea = crate.adts[fields[i]["ty"]]
-        var = [x for x in ea["variants"] if x["idx"] == v.variant]
-        pay = []
-        for j, _x in enumerate(v.fields):
-            k += 1
-            pay.append(Opq("self", ("payload%d" % k,)))
-            pty = var[0]["fields"][j]["ty"] if var and j < len(var[0]["fields"]) else "?"
-            cmap["$self.payload%d" % k] = "$self<%s>" % pty.replace("lexpr::", "")
-        vals[i] = Adt(v.adt, v.variant, pay, v.vname)
-    me = Adt(f.self_ty, 0, [vals[i] if i in vals else Opq("self", (fl["name"],)) for i, fl in enumerate(fields)])
+    counter = [0]
+
+    class Mismatch(Exception):
+        pass
+
+    def payload_tys(ty, variant):
+        if ty.startswith("std::option::Option<"):
+            return [ty[len("std::option::Option<"):-1]] if variant == 1 else []
+        var = [x for x in crate.adts[ty]["variants"] if x["idx"] == variant]
+        return [fl["ty"] for fl in var[0]["fields"]] if var else []
+
+    def build(ty, vals, path):
+        """vals: what the constructor paths put at this place."""
+        if enum_like(ty):
+            if not all(isinstance(v, Adt) for v in vals) or len({v.variant for v in vals}) != 1:
+                raise Mismatch()
+            v = vals[0]
+            pay = []
+            ptys = payload_tys(ty, v.variant)
+            for j, _x in enumerate(v.fields):
+                counter[0] += 1
+                pay.append(Opq("self", ("payload%d" % counter[0],)))
+                cmap["$self.payload%d" % counter[0]] = "$self<%s>" % (ptys[j] if j < len(ptys) else "?").replace("lexpr::", "")
+            return Adt(v.adt, v.variant, pay, v.vname)
+        if struct_like(ty) and has_enum(ty):
+            fields = crate.adts[ty]["variants"][0]["fields"]
+            if not all(isinstance(v, Adt) and v.adt == ty and len(v.fields) == len(fields) for v in vals):
+                raise Mismatch()
+            return Adt(ty, 0, [build(fl["ty"], [v.fields[i] for v in vals], path + (fl["name"],)) for i, fl in enumerate(fields)])
+        return Opq("self", path)
+
+    try:
+        me = build(f.self_ty, objs, ())
+    except Mismatch:
+        return {}, {}
     by_ref = f.local_ty(1).startswith("&")
     return ({1: Ref([me], 0, ()) if by_ref else me}, cmap)
 
@@ -215,12 +244,31 @@ def _field(crate, fn, v):
 
 
 def _canon_fields(crate, fn, s):
+    """`$self.items` -> `$self<Vec<Value>>`: a field is named by its type, so that renaming it (or moving it into a
+    struct-typed field, `$self.inner.items`) does not change the term."""
     a = _self_adt(crate, fn)
     if not a:
         return s
-    for fld in a["variants"][0]["fields"]:
-        s = s.replace("$self." + fld["name"], "$self<" + fld["ty"].replace("lexpr::", "") + ">")
-    return s
+    import re
+
+    def repl(m):
+        ty = fn.self_ty
+        rest = m.group(1).split(".")[1:]
+        done = 0
+        for name in rest:
+            ad = crate.adts.get(ty)
+            if not ad or ad.get("kind") != "struct":
+                break
+            fl = [x for x in ad["variants"][0]["fields"] if x["name"] == name]
+            if not fl:
+                break
+            ty = fl[0]["ty"]
+            done += 1
+        if done == 0:
+            return m.group(0)
+        return "$self<" + ty.replace("lexpr::", "") + ">" + "".join("." + x for x in rest[done:])
+
+    return re.sub(r"\$self((?:\.[A-Za-z_][A-Za-z_0-9]*)+)", repl, s)
 
 
 # ---------------------------------------------------------------- deserializer
